@@ -79,6 +79,13 @@ func legSem(c *Ctx, rtl bool) {
 	depth := c.N(4, 6)
 	modes := map[string]int{}
 	corpus := semCorpus()
+	// loops next to literals and to other loops, every flavour (the concatenation reducers merge, re-split and make
+	// such neighbours atomic): a seed-dependent half of the family in the quick tier, all of it in the thorough tier
+	for _, a := range adjacencyFamily() {
+		if c.Thorough || c.Rng.Chance(50) {
+			corpus = append(corpus, a)
+		}
+	}
 	for i := 0; i < nPat+len(corpus); i++ {
 		o := randOpts(c.Rng, rtl)
 		d := 2 + c.Rng.Intn(depth-1)
@@ -159,6 +166,35 @@ func rep(a *Ast, mn, mx int, lazy bool) *Ast {
 	return &Ast{Kind: ARep, Kids: []*Ast{a}, Min: mn, Max: mx, Lazy: lazy}
 }
 func grp(a *Ast) *Ast { return &Ast{Kind: AGroup, Kids: []*Ast{a}} }
+
+// adjacencyFamily: X-loop F and F X-loop for every loop flavour (greedy, lazy, explicitly atomic; *, +, ?, {1,2})
+// over a character and a class, F a literal run, a loop or a class sharing the loop's character
+func adjacencyFamily() []*Ast {
+	cls := func() *Ast { return &Ast{Kind: AClass, Items: []ClassItem{{Lo: 'a', Hi: 'b'}}} }
+	atomic := func(a *Ast) *Ast { return &Ast{Kind: AAtomic, Kids: []*Ast{a}} }
+	var out []*Ast
+	for _, mkAtom := range []func() *Ast{func() *Ast { return lit('a') }, cls} {
+		loops := []func() *Ast{
+			func() *Ast { return rep(mkAtom(), 0, -1, false) }, func() *Ast { return rep(mkAtom(), 1, -1, false) },
+			func() *Ast { return rep(mkAtom(), 0, 1, false) }, func() *Ast { return rep(mkAtom(), 1, 2, false) },
+			func() *Ast { return rep(mkAtom(), 0, -1, true) }, func() *Ast { return rep(mkAtom(), 1, -1, true) },
+			func() *Ast { return atomic(rep(mkAtom(), 0, -1, false)) }, func() *Ast { return atomic(rep(mkAtom(), 1, -1, false)) },
+			func() *Ast { return atomic(rep(mkAtom(), 0, 1, false)) }, func() *Ast { return atomic(rep(mkAtom(), 1, 2, false)) },
+		}
+		followers := []func() []*Ast{
+			func() []*Ast { return []*Ast{lit('a')} }, func() []*Ast { return []*Ast{lit('a'), lit('b')} },
+			func() []*Ast { return []*Ast{lit('a'), lit('a'), lit('b')} }, func() []*Ast { return []*Ast{rep(lit('a'), 1, -1, false)} },
+			func() []*Ast { return []*Ast{lit('a'), rep(lit('b'), 0, -1, false)} }, func() []*Ast { return []*Ast{lit('b'), lit('a')} },
+		}
+		for _, l := range loops {
+			for _, f := range followers {
+				out = append(out, cat(append([]*Ast{l()}, f()...)...))
+				out = append(out, cat(append(f(), l())...))
+			}
+		}
+	}
+	return out
+}
 
 // semCorpus: minimised shapes of past disagreements between the engine and the reference semantics
 func semCorpus() []*Ast {
